@@ -10,7 +10,8 @@
    Is that encoding injective?  One letter of the model is one 8-byte chunk, so the two block
    numbers are exactly one letter wide and every variable-length field is a sequence of letters.
    A request is a function field -> value:
-      metadata    sequence (<= 1) of <<name, value>>, name/value strings
+      metadata    sequence of <<name, value>>, name/value strings (<= 1 entry in the enumerated
+                  requests, 2-3 entries in MdMutPairs)
       extensions  sequence (<= 2) of strings
       addon, api_interface, connection_type, api_url, data, salt   strings
       request_block, seen_block                                     one letter
@@ -116,4 +117,21 @@ Base1 == [f \in Fields |-> CASE f = "metadata" -> <<<<<<"a">>, <<"a">>>>>> [] f 
 Base2 == [f \in Fields |-> CASE f \in FixedW -> (IF f = "request_block" THEN "a" ELSE "b") [] OTHER -> <<>>]
 MutPairs == {p \in UNION {{[r1 |-> b, r2 |-> [b EXCEPT ![f] = v]] : v \in Dom(f)} : b \in {Base1, Base2}, f \in Fields} :
                Enc(p.r1) # Enc(p.r2)}
+
+\* ---- requests with 2-3 metadata entries: one component (name or value) of an EARLIER entry replaced by a
+\* different string of the same length; later entries have short names and longer values.  The model says
+\* every such pair hashes differently (the bytes of every entry are part of Enc).
+S1 == {<<"a">>, <<"b">>}
+S2 == {<<"a", "b">>, <<"b", "a">>}
+S3 == {<<"a", "b", "a">>, <<"b", "a", "b">>}
+SameLen(x) == {y \in S1 \cup S2 \cup S3 : Len(y) = Len(x) /\ y # x}
+Ent(ns, vs) == {<<n, v>> : n \in ns, v \in vs}
+WithMd(md) == [Base2 EXCEPT !["metadata"] = md]
+MutEntry(md, i) == {[md EXCEPT ![i] = <<y, md[i][2]>>] : y \in SameLen(md[i][1])} \cup
+                   {[md EXCEPT ![i] = <<md[i][1], y>>] : y \in SameLen(md[i][2])}
+MdLists == {<<e1, e2>> : e1 \in Ent({<<>>} \cup S1, S1 \cup S2 \cup S3), e2 \in Ent({<<>>} \cup S1, S1 \cup S2 \cup S3)} \cup
+           {<<e1, e2, e3>> : e1 \in Ent({<<>>, <<"a">>}, {<<"a">>, <<"a", "b">>}), e2 \in Ent({<<>>, <<"a">>}, {<<"a">>, <<"a", "b">>}),
+                             e3 \in Ent({<<>>, <<"a">>}, {<<"a">>, <<"a", "b">>})}
+MdMutPairs == UNION {UNION {{[r1 |-> WithMd(md), r2 |-> WithMd(m2)] : m2 \in MutEntry(md, i)} : i \in 1..(Len(md) - 1)} : md \in MdLists}
+MdMutSound == \A p \in MdMutPairs : Enc(p.r1) # Enc(p.r2)
 =============================================================================
